@@ -2,8 +2,16 @@
 
 package policysync
 
+import "github.com/projectcalico/calico/felix/proto"
+
 // Synchronous access to the handlers that Processor.loop() runs from its goroutine (C31 correspondence driver).
 
 func (p *Processor) VerifHandleJoin(r JoinRequest)   { p.handleJoin(r) }
 func (p *Processor) VerifHandleLeave(r LeaveRequest) { p.handleLeave(r) }
 func (p *Processor) VerifHandleDataplane(u any)      { p.handleDataplane(u) }
+
+// The message splitters (gRPC size limit), for the chunking correspondence.
+func VerifSplitIPSetUpdate(u *proto.IPSetUpdate) []*proto.ToDataplane { return splitIPSetUpdate(u) }
+func VerifSplitIPSetDeltaUpdate(u *proto.IPSetDeltaUpdate) []*proto.ToDataplane {
+	return splitIPSetDeltaUpdate(u)
+}
